@@ -7,6 +7,7 @@ import Cicada.Spec.C03
 import Cicada.Spec.C01
 import Cicada.Spec.C10
 import Cicada.Spec.C12
+import Cicada.Spec.C19
 /-!
 `cicada_model` — runs the Lean model (the very definitions the theorems are about) and the
 reference semantics on the cases of the correspondence protocol.
@@ -363,10 +364,19 @@ def answer (stream : String) (f : Array String) : Ans :=
         | .run k => "st=0|out=" ++ hex (es.subst.cmdOut k) ++ "|err=-|log=" ++ hex k))
     ansOf id o
   | "calc" =>
-    ansOf (fun r => match r with
+    let a := ansOf (fun r => match r with
       | Calc.CalcRes.int z => "ok|" ++ hex (showInt z)
       | .float => "ok|F"
       | .syntaxError => "err") (Calc.runCalculator (unhex (g 0)))
+    if g 1 = "c19" then
+      let toks := ((g 2).splitOn " ").filter (· ≠ "")
+      match C19.parseT (toks.length + 1) toks with
+      | some (t, []) =>
+        (match C19.specEval t with
+         | some v => { a with s := "ok|" ++ hex (showInt v), guard := "1" }
+         | none => { a with guard := "0", cls := "outside-statement:exponent-or-literal" })
+      | _ => { a with s := "BAD-TREE" }
+    else a
   | _ => { m := "UNKNOWN-STREAM" }
 
 partial def loop (h : IO.FS.Stream) (out : IO.FS.Stream) : IO Unit := do
